@@ -291,10 +291,13 @@ func (p *parser) primary() Expr {
 		case "forall", "exists":
 			return p.quant(t.s == "forall")
 		case "old":
-			p.expect("(")
-			e := p.expr()
-			p.expect(")")
-			return &EOld{e}
+			if p.isOp("(") {
+				p.next()
+				e := p.expr()
+				p.expect(")")
+				return &EOld{e}
+			}
+			return &EIdent{t.s}
 		}
 		if p.isOp("(") {
 			p.next()
